@@ -432,6 +432,34 @@ fn judge_ctor(case: &Case, l: &mut Local) {
                 l.check("index_of returns the zone of the greatest value not above the query", "", okq, mk, || format!("{:?}.index_of({}) = {:?} expected {:?}", model, q, got, want));
             }
         }
+        "resample" => {
+            l.eval();
+            let (x0, span, n) = (v[0], v[1], v[2] as usize);
+            let xs = vec![x0, x0 + 0.4 * span, x0 + span];
+            let ys = vec![1.0, -0.5, 2.0];
+            let s = match Series1::try_new(xs.clone(), ys.clone()) {
+                Ok(s) => s,
+                Err(_) => return,
+            };
+            l.bucket("resampling over awkward spans");
+            match guarded(|| s.resampled_n(n)) {
+                Err(m) => {
+                    l.check("resampling returns", "panic", false, mk, || m.clone());
+                }
+                Ok(r) => {
+                    let rx = r.x.values();
+                    l.outcome(hash_of(&(n, rx.last().map(|x| *x > xs[2]))));
+                    let ends = rx.len() == n && rx[0] == xs[0] && rx[n - 1] <= xs[2] && (rx[n - 1] - xs[2]).abs() <= 4.0 * f64::EPSILON * (xs[0].abs() + xs[2].abs());
+                    let finite = r.y.iter().all(|y| y.is_finite()) && valid(&r).is_none();
+                    let on = r.xys().all(|(x, y)| (y - eval_ref(&xs, &ys, *x)).abs() <= 1e-9);
+                    l.check("resampling to n points keeps both end points inside the domain, finite ordinates on the graph", "", ends && finite && on, mk, || format!("[{}, {}] n {}: last abscissa {:e} (x_max {:e}), ordinates {:?}", xs[0], xs[2], n, rx[rx.len() - 1], xs[2], &r.y[r.y.len().saturating_sub(2)..]));
+                    if finite {
+                        let a = r.area_under();
+                        l.check("area under a resampled series is finite", "", a.is_finite(), mk, String::new);
+                    }
+                }
+            }
+        }
         "linear" | "linear_space" => {
             l.eval();
             let (a, b, n) = (v[0], v[1], v[2] as usize);
@@ -499,6 +527,13 @@ pub fn ctor_cases() -> Vec<Case> {
             }
         }
     }
+    for x0 in [0.0, 1.0, -0.3] {
+        for span in [0.1, 0.3, 0.7, 0.9, 1.7, 2.5, 3.1, 4.0] {
+            for n in 2..=16 {
+                out.push(Case { kind: "ctor".into(), state: None, ctor: Some(vec![x0, span, n as f64]), name: "resample".into() });
+            }
+        }
+    }
     for a in [-2.0, 0.0, 1.0, 3.0] {
         for b in [-2.0, 0.0, 1.0, 3.0] {
             for n in [2.0, 3.0, 7.0] {
@@ -517,7 +552,7 @@ pub fn run(tier: Tier) -> i32 {
     let depth = tier.pick(3, 4);
     let max_states = 3_000_000;
     cx.bounds = json!({"depth": depth, "max_states": max_states});
-    cx.require(&["non-initial state", "repeated abscissae", "single-knot series", "series with NaN ordinates", "slices judged", "splits judged", "negative x scale", "positive x scale", "level along a flat segment", "level crossing isolated points", "accepted vector", "rejected vector", "push history", "descending bounds", "equal bounds", "ascending bounds"]);
+    cx.require(&["non-initial state", "repeated abscissae", "single-knot series", "series with NaN ordinates", "slices judged", "splits judged", "negative x scale", "positive x scale", "level along a flat segment", "level crossing isolated points", "resampling over awkward spans", "accepted vector", "rejected vector", "push history", "descending bounds", "equal bounds", "ascending bounds"]);
     cx.assume("function preservation is judged on strictly ascending, NaN-free series; series with repeated abscissae are judged for validity only; along a flat segment lying on the level only 'returns, and every reported abscissa is a crossing' is judged");
     let (l, states, _e, reached, capped) = bfs_par(roots(tier), |s| s.key(), expand, depth, max_states);
     let transitions = l.transitions;
